@@ -29,7 +29,7 @@ def probe_set():
            ("float", "float16", np.float16), ("float", "float32", np.float32), ("float", "bfloat16", ml_dtypes.bfloat16),
            ("complex", "complex64", np.complex64), ("float", "float8_e5m2", ml_dtypes.float8_e5m2)]
     shapes = [(), (2,), (3, 2), (2, 2), (2, 3, 2)]
-    return [({"cls": {"kind": k, "name": n}, "shape": list(s)}, np.zeros(s, dtype=t)) for k, n, t in dts for s in shapes]
+    return [({"cls": {"kind": k, "name": n, "chars": list(n)}, "shape": list(s)}, np.zeros(s, dtype=t)) for k, n, t in dts for s in shapes]
 
 
 def nest_worker(args):
